@@ -20,8 +20,10 @@ func main() {
 	timeout := flag.Int("t", 10, "solver timeout (s)")
 	work := flag.String("work", "/verif/.work/dev", "scratch dir")
 	verbose := flag.Bool("v", false, "verbose")
+	repo := flag.String("repo", "/repo", "repository root")
+	reachOnly := flag.Bool("reachonly", false, "only the cover check (implies -reach): no obligation is discharged")
 	flag.Parse()
-	e, err := govc.Load("/repo", "github.com/rigochain/rigo-go", strings.Split(*pkgs, ","), "/verif/spec")
+	e, err := govc.Load(*repo, "github.com/rigochain/rigo-go", strings.Split(*pkgs, ","), "/verif/spec")
 	if err != nil {
 		fmt.Println("load:", err)
 		os.Exit(2)
@@ -72,6 +74,10 @@ func main() {
 		var wg sync.WaitGroup
 		sem := make(chan struct{}, 12)
 		for _, o := range r.Obls {
+			if *reachOnly {
+				o.Status = "discharged"
+				continue
+			}
 			o := o
 			wg.Add(1)
 			sem <- struct{}{}
@@ -102,9 +108,11 @@ func main() {
 				}
 			}
 		}
-		sm := govc.Smoke(r, *work, *timeout)
-		fmt.Printf("   smoke: %s\n", sm)
-		if *reach {
+		if !*reachOnly {
+			sm := govc.Smoke(r, *work, *timeout)
+			fmt.Printf("   smoke: %s\n", sm)
+		}
+		if *reach || *reachOnly {
 			// cover check behind every obligation: list those whose path is excluded by the quantifier-free hypotheses
 			type rr struct{ name, st string }
 			out := make([]rr, len(r.Obls))
